@@ -832,6 +832,9 @@ fn roa_table(w: &World, key: usize) -> Vec<Case> {
         (std.clone(), "v6-equal-block", one6(Pfx::v6(v6b, 48), Some(64))),
         (std.clone(), "v6-inside", one6(Pfx::v6(v6b | (0x8000u128 << 64), 49), None)),
         (std.clone(), "v6-last-host", one6(Pfx::v6(v6b | ((1u128 << 80) - 1), 128), None)),
+        (std.clone(), "v6-first-host", one6(Pfx::v6(v6b, 128), None)),
+        (std.clone(), "v6-second-host", one6(Pfx::v6(v6b | 1, 128), None)),
+        (std.clone(), "v6-host-just-below-block", one6(Pfx::v6(v6b - 1, 128), None)),
         (std.clone(), "v6-one-bit-shorter", one6(Pfx::v6(V6_DOC, 47), None)),
         (std.clone(), "v6-above-adjacent-48", one6(Pfx::v6(V6_DOC | (2u128 << 80), 48), None)),
         (std.clone(), "v6-below-adjacent-64", one6(Pfx::v6(V6_DOC | (0xffffu128 << 64), 64), None)),
@@ -867,7 +870,7 @@ fn roa_random(w: &World, rng: &mut Rng, key: usize) -> Case {
     let host_bits: u32 = if is_v4 { 96 } else { 0 };
     let unit: u128 = 1u128 << host_bits;
     let place = rng.below(6);
-    let len: u8 = rng.range(if is_v4 { 8 } else { 16 }, fam_bits as u64) as u8;
+    let len: u8 = if place < 4 && rng.chance(1, 3) { fam_bits } else { rng.range(if is_v4 { 8 } else { 16 }, fam_bits as u64) as u8 };
     let span = (hi - lo) / unit; // number of family addresses - 1
     let off = if span == 0 { 0 } else { rng.next_u128() % (span + 1) };
     let addr = match place {
@@ -931,6 +934,10 @@ fn aspa_table(w: &World, key: usize) -> Vec<Case> {
         aspa_case(w, EeSpec { v6: Res::Blocks(std_v6()), ..std.clone() }, "ee-with-v6-resources", 64502, provs),
         aspa_case(w, EeSpec { v4: Res::Inherit, ..std.clone() }, "ee-with-inherited-v4", 64502, provs),
         aspa_case(w, EeSpec { asn: Res::Inherit, ..std.clone() }, "ee-with-inherited-as", 64500, provs),
+        // the EE certificate HAS IP resources, but none of them survives trimming:
+        // "no IP resources" is about the certificate, not about what validation leaves
+        aspa_case(w, EeSpec { v4: Res::Blocks(vec![v4r(a4(203, 0, 113, 0), a4(203, 0, 113, 255))]), ..trim.clone() }, "trim-ee-with-v4-resources-trimmed-to-nothing", 64500, provs),
+        aspa_case(w, EeSpec { v6: Res::Blocks(vec![v6p(0x3fffu128 << 112, 20)]), ..trim.clone() }, "trim-ee-with-v6-resources-trimmed-to-nothing", 64500, provs),
     ]
 }
 
